@@ -340,7 +340,10 @@ func (w *world) wire() error {
 	bp := plugins.New()
 	bp.RegisterPlugin(k8s)
 	bp.RegisterPlugin(gpusharing.New(w.cl, false))
-	rrs := resourcereservation.NewService(false, w.cl, "img", 15*time.Millisecond,
+	// the allocation timeout is never waited for: an answered watch has its event queued before it is returned and a
+	// silent device plugin is a closed watch (the service reads both as it reads a timeout); the generous value only
+	// keeps a descheduled goroutine on a loaded machine from seeing the timer and the queued event ready together
+	rrs := resourcereservation.NewService(false, w.cl, "img", 20*time.Second,
 		rsvNS, "sa", "kai-resource-reservation", scaleNS, "", nil)
 	w.rrs = rrs
 	b := &markBinder{inner: binding.NewBinder(w.cl, rrs, bp), w: w}
@@ -955,7 +958,9 @@ func (w *world) funcs() interceptor.Funcs {
 			if ans < 0 || !found {
 				w.log[i].Outcome = "Err" // the reservation service sees a timeout
 				_ = w.done(i, nil)
-				return &silentWatch{ch: make(chan watch.Event)}, nil
+				sw := &silentWatch{ch: make(chan watch.Event)}
+				close(sw.ch) // unknown device at once, as after the allocation timeout
+				return sw, nil
 			}
 			if cur.Annotations == nil {
 				cur.Annotations = map[string]string{}
